@@ -37,6 +37,11 @@ func verify(c *Ctx, fn *ssa.Function, fc *FuncContract, commutes bool) {
 			c.defs = append(c.defs, fmt.Sprintf("(assert (<= %s %s))", v.T, fr.allocTerm(st)))
 		case *types.Slice:
 			c.defs = append(c.defs, fmt.Sprintf("(assert (and (>= (sl.len %s) 0) (>= (sl.off %s) 0) (<= (sl.arr %s) %s)))", v.T, v.T, v.T, fr.allocTerm(st)))
+		case *types.Struct:
+			// references carried inside a struct parameter were allocated before the call
+			for _, rp := range c.refPaths(v.T, p.Type(), 0) {
+				c.defs = append(c.defs, "(assert "+strings.ReplaceAll(rp, "$B", fr.allocTerm(st))+")")
+			}
 		}
 	}
 	ghost := map[string]Val{}
